@@ -95,6 +95,12 @@ var values = []pv{
 	{"net.OpError other", func() any {
 		return &net.OpError{Op: "read", Net: "tcp", Err: &os.SyscallError{Syscall: "read", Err: syscall.ETIMEDOUT}}
 	}, false, false},
+	{"net.OpError wrapping a wrapped syscall broken pipe", func() any {
+		return &net.OpError{Op: "write", Net: "tcp", Err: fmt.Errorf("write: %w", &os.SyscallError{Syscall: "write", Err: syscall.EPIPE})}
+	}, false, true},
+	{"net.OpError nested in net.OpError, connection reset", func() any {
+		return &net.OpError{Op: "read", Net: "tcp", Err: &net.OpError{Op: "read", Net: "tcp", Err: &os.SyscallError{Syscall: "read", Err: syscall.ECONNRESET}}}
+	}, false, true},
 	{"net.OpError without syscall error", func() any { return &net.OpError{Op: "read", Net: "tcp", Err: errors.New("broken pipe")} }, false, false},
 }
 
@@ -189,6 +195,7 @@ func main() {
 		}
 	}
 	txnPanics(run)
+	writePanics(run)
 	run.SetExtra("fault_enumeration", fmt.Sprintf("%d panic values x %d progress states x %d handler kinds, with every credential header in 5 capitalisations for the string and error values: enumerated completely (%d executions)", len(values), len(progress), len(kinds), n))
 }
 
@@ -328,6 +335,86 @@ func head(s string) string {
 		return s[:500] + "…"
 	}
 	return s
+}
+
+// writePanics: user code that fox runs while it holds the writer lock (middleware constructors given as route
+// options) may panic too: the panic reaches the caller, nothing changes and the lock is released, for every one-shot
+// write entry point and for writes inside managed transactions.
+func writePanics(run *kit.Run) {
+	f, _ := fox.New()
+	h := func(fox.Context) {}
+	for _, p := range []string{"/a", "/a/{b}", "/c/*{d}"} {
+		f.MustHandle("GET", p, h)
+	}
+	entries := []struct {
+		name string
+		do   func(opt fox.RouteOption)
+	}{
+		{"Router.Handle", func(o fox.RouteOption) { _, _ = f.Handle("GET", "/w/new", h, o) }},
+		{"Router.Update", func(o fox.RouteOption) { _, _ = f.Update("GET", "/a", h, o) }},
+		{"Router.Update (unknown route)", func(o fox.RouteOption) { _, _ = f.Update("GET", "/w/none", h, o) }},
+		{"Router.NewRoute+HandleRoute", func(o fox.RouteOption) {
+			if rte, err := f.NewRoute("/w/new2", h, o); err == nil {
+				_ = f.HandleRoute("GET", rte)
+			}
+		}},
+		{"Router.NewRoute+UpdateRoute", func(o fox.RouteOption) {
+			if rte, err := f.NewRoute("/a/{b}", h, o); err == nil {
+				_ = f.UpdateRoute("GET", rte)
+			}
+		}},
+		{"Updates: Txn.Handle", func(o fox.RouteOption) {
+			_ = f.Updates(func(t *fox.Txn) error { _, err := t.Handle("GET", "/w/new3", h, o); return err })
+		}},
+		{"Updates: Txn.Delete then Txn.Update", func(o fox.RouteOption) {
+			_ = f.Updates(func(t *fox.Txn) error {
+				_, _ = t.Delete("GET", "/c/*{d}")
+				_, err := t.Update("GET", "/a", h, o)
+				return err
+			})
+		}},
+		{"Txn(true) with deferred Abort: Txn.Handle", func(o fox.RouteOption) {
+			t := f.Txn(true)
+			defer t.Abort()
+			_, _ = t.Handle("GET", "/w/new4", h, o)
+			t.Commit()
+		}},
+	}
+	for _, e := range entries {
+		for _, v := range values {
+			if v.make == nil {
+				continue
+			}
+			id := fmt.Sprintf("write|%s|%s", e.name, v.name)
+			run.Case(id, true)
+			before := fox.VerifFingerprint(f.Iter())
+			raised := v.make()
+			opt := fox.WithMiddleware(func(next fox.HandlerFunc) fox.HandlerFunc { panic(raised) })
+			var escaped any
+			done := kit.Completes(20*time.Second, func() {
+				defer func() { escaped = recover() }()
+				e.do(opt)
+			})
+			if !done {
+				run.Inconclusive("write entry point %s did not return within the watchdog", e.name)
+				return
+			}
+			if escaped != raised {
+				run.Violate("write-panic-lost|"+id, fmt.Sprintf("a panic raised by a middleware constructor during %s (value %s) reached the caller as %v instead of the value raised", e.name, v.name, escaped), nil)
+			}
+			if fox.VerifFingerprint(f.Iter()) != before {
+				run.Violate("write-panic-commits|"+id, fmt.Sprintf("a panic during %s left visible changes", e.name), nil)
+			}
+			if !kit.Completes(20*time.Second, func() { _, _ = f.Update("GET", "/a", h) }) {
+				if g := kit.BlockedOnMutex(kit.AllStacks(), "github.com/tigerwill90/fox."); g != "" {
+					run.Violate("write-panic-lock|"+id, fmt.Sprintf("the writer lock is still held after a panic raised by a middleware constructor during %s\n%s", e.name, kit.TrimStack(g)), nil)
+				} else {
+					run.Inconclusive("write after a panicking write did not finish within the watchdog (%s)", id)
+				}
+				return
+			}
+		}
+	}
 }
 
 // txnPanics: a panic after every step of an Updates or View function propagates, changes nothing and releases the lock.
